@@ -24,7 +24,7 @@ def instances(tier):
         out.append(Instance("keys.%s" % key.replace(" ", "_"), "h_keys", {"key": key}, timeout=300))
     for side in ("right", "left"):
         for sbw in (1, 2):
-            out.append(Instance("bar.%s.w%d" % (side, sbw), "h_bar", {"side": side, "sbw": sbw, "maxrows": 5 if tier == "quick" else 7, "maxtotal": 9 if tier == "quick" else 16}, timeout=900 if tier == "quick" else 3000))
+            out.append(Instance("bar.%s.w%d" % (side, sbw), "h_bar", {"side": side, "sbw": sbw, "maxrows": 4 if tier == "quick" else 7, "maxtotal": 7 if tier == "quick" else 16}, timeout=900 if tier == "quick" else 3000))
     return out
 
 
@@ -161,7 +161,9 @@ def h_bar(I, side, sbw, maxrows, maxtotal):
     maxrow = int(I.int("maxrow", 1, maxrows))
     maxcol = int(I.int("maxcol", sbw + 1, sbw + 3))
     results = []
-    total_v = int(I.int("total", 0, maxtotal))
+    total_full = int(I.int("total", 0, maxtotal))
+    # the content may fold into more rows at the narrower width it gets beside the bar
+    extra = int(I.int("extra_rows_when_narrower", 0, 2))
     for k in (1, 2):
         log = []
 
@@ -169,11 +171,11 @@ def h_bar(I, side, sbw, maxrows, maxtotal):
             _sizing = frozenset([urwid.FLOW])
 
             def rows(self, size, focus=False):
-                return total_v
+                return total_full + (extra if size[0] < maxcol else 0)
 
             def render(self, size, focus=False):
                 log.append(size)
-                return urwid.SolidCanvas("c", size[0], total_v)
+                return urwid.SolidCanvas("c", size[0], self.rows(size))
 
         sc = urwid.Scrollable(Child())
         pos = I.int("pos%d" % k, 0)
@@ -182,7 +184,7 @@ def h_bar(I, side, sbw, maxrows, maxtotal):
         canv = sb.render((maxcol, maxrow), False)
         I.check("canvas_size_%d" % k, And(canv.cols() == maxcol, canv.rows() == maxrow))
         p = sc.get_scrollpos()
-        need = total_v > maxrow
+        need = total_full > maxrow
         kinds = _bar_profile(I, canv, maxcol, maxrow, side, sbw, "#")
         drawn = "T" in kinds
         I.check("bar_drawn_iff_content_taller_%d" % k, drawn == need)
